@@ -78,7 +78,7 @@ func (w *W) routePath() string {
 var codes = []int{200, 201, 202, 203, 204, 205, 226, 301, 302, 304, 307, 308, 400, 401, 403, 404, 409, 418, 422, 429, 451, 500, 502, 503}
 
 func genOp(r *verifsim.Rng, n int) ROp {
-	k := verifsim.Pick(r, []string{"status", "status", "header", "header", "cookie", "write", "write", "json", "html", "redirect", "nocontent", "writeheader", "success", "error", "format", "file"})
+	k := verifsim.Pick(r, []string{"status", "status", "header", "header", "cookie", "write", "write", "json", "html", "redirect", "nocontent", "writeheader", "success", "error", "format", "file", "manywrites", "manyheaders"})
 	op := ROp{K: k}
 	switch k {
 	case "status", "writeheader":
@@ -129,6 +129,9 @@ func genOp(r *verifsim.Rng, n int) ROp {
 		op.C = verifsim.Pick(r, []int{200, 201, 202, 400, 409, 500})
 	case "file": // a download: content type by extension, attachment disposition, the file's bytes
 		op.A = fmt.Sprintf("dl%d.bin", n)
+	case "manywrites", "manyheaders": // one call site executed hundreds of times
+		op.A = fmt.Sprintf("m%d.", n)
+		op.C = verifsim.Pick(r, []int{40, 300, 700})
 	}
 	return op
 }
@@ -336,6 +339,10 @@ func render(op ROp, v string) string {
 		return fmt.Sprintf("%s->format(%d, %q, [\"d\" => 1]);", v, op.C, op.A)
 	case "file":
 		return fmt.Sprintf("%s->file(%q, %q);", v, fixtureFile(), op.A)
+	case "manywrites":
+		return fmt.Sprintf("for ($mi = 0; $mi < %d; $mi++) { %s->write(%q); }", op.C, v, op.A)
+	case "manyheaders":
+		return fmt.Sprintf("for ($mi = 0; $mi < %d; $mi++) { %s->header(\"X-Many\", %q . $mi); }", op.C, v, op.A)
 	}
 	panic("unknown op " + op.K)
 }
@@ -551,6 +558,16 @@ func (m *model) apply(n numbered) bool {
 		m.setStatus(op.C)
 		m.setHeader("Content-Type", "application/json; charset=utf-8")
 		return m.write(m.bodies[n.id])
+	case "manywrites":
+		for i := 0; i < op.C; i++ {
+			if !m.write(op.A) {
+				return false
+			}
+		}
+	case "manyheaders":
+		for i := 0; i < op.C; i++ {
+			m.setHeader("X-Many", fmt.Sprintf("%s%d", op.A, i))
+		}
 	case "file":
 		m.setHeader("Content-Type", "application/octet-stream")
 		m.setHeader("Content-Disposition", fmt.Sprintf("attachment; filename=%q", op.A))
